@@ -2,7 +2,7 @@
 ID = 'C05'
 CLAIM = ('xtl::variant<int, T1, T2> (T1: every copy/move may throw; T2: throwing copy, nothrow move; int trivial) with a lifetime ledger and a symbolic fault schedule (a throw decision at EVERY element '
          'copy/move constructor and assignment): copy/move construction, copy/move/converting assignment, emplace (incl. a throwing constructor), swap (member and free), in_place construction from every '
-         'pair of start states (each alternative or valueless); observers index/valueless/holds_alternative/get_if/get/xget/visit mutually consistent; relational operators; visit over 2 and 3 variants (all 64 cells)')
+         'pair of start states (each alternative or valueless); observers index/valueless/holds_alternative/get_if/get/xget/visit mutually consistent; relational operators; visit over 2 and 3 variants (all 64 cells); variant<int, TA, TB> with trivially assignable but non-trivially copyable/destructible alternatives (assignment, swap, copy) under the same ledger')
 BOUNDS = {'quick': '3 alternatives (plus one 258-alternative variant of trivial types for index/valueless/get_if/copy), 2 variants per operation (3 for visit), one operation per query from every pair of start states, up to 10 throw decisions per operation; payload values 0..29999',
           'thorough': 'same, second SAT back end'}
 NOT_COVERED = ['more than 3 alternatives / other alternative sets; recursive variants; sequences of two or more operations are covered through start states reachable by the API (every alternative, valueless) rather than enumerated',
@@ -12,7 +12,7 @@ INERT = ['_ZNSt9exceptionD2Ev']
 
 
 def units(tier):
-    return [Unit('variant', 'wrappers.cpp', ['harness.c'], inert=INERT, tv=[('h_op', []), ('h_rel', []), ('h_visit', [])], tv_iters=20000)]
+    return [Unit('variant', 'wrappers.cpp', ['harness.c'], inert=INERT, tv=[('h_op', []), ('h_rel', []), ('h_visit', []), ('h_triv', [])], tv_iters=20000)]
 
 
 OPS = ['copy_ctor', 'move_ctor', 'copy_assign', 'move_assign', 'assign_int', 'assign_T1_lvalue', 'assign_T2_rvalue', 'emplace_int', 'emplace_T1', 'emplace_T2', 'swap', 'swap_free', 'emplace_throwing_ctor', 'in_place_ctor']
@@ -22,7 +22,7 @@ def obligations(tier):
     obs = []
     for i, name in enumerate(OPS):
         ob = Ob('op/' + name, 'variant', 'h_op', defines=['OPFIX=%d' % i], unwind=4, bound='all start states, all fault schedules', min_witnesses=1, timeout=900); ob.harness_unwind = 12; obs.append(ob)
-    for h in ('h_rel', 'h_visit', 'h_big'):
+    for h in ('h_rel', 'h_visit', 'h_big', 'h_triv'):
         ob = Ob(h[2:], 'variant', h, unwind=4, bound='all start states', min_witnesses=1, timeout=900); ob.harness_unwind = 12; obs.append(ob)
     if tier == 'thorough':
         ob = Ob('op/any@cadical', 'variant', 'h_op', unwind=4, backend='cadical', min_witnesses=3, timeout=3600, bound='symbolic operation selector'); ob.harness_unwind = 12; obs.append(ob)
